@@ -121,6 +121,16 @@ def gen_case(rng, cid, profile="mixed"):
                 if not s["steps"] and (s is not r["scenarios"][-1] or r is not f["rules"][-1]):
                     s["steps"].append("run")
 
+    # now and then two scenarios of one feature / rule share their displayed name, as the rows of
+    # an outline do (their ids then travel in a tag; the harness identifies scenarios by id)
+    if rng.random() < 0.2:
+        groups = [f["scenarios"] for f in feats] + [r["scenarios"] for f in feats for r in f["rules"]]
+        groups = [g for g in groups if len(g) >= 2]
+        if groups:
+            g = rng.choice(groups)
+            a, b = rng.sample(range(len(g)), 2)
+            g[a]["display"] = g[b]["display"] = "Twin of " + g[min(a, b)]["name"]
+
     cfg = {"before": rng.random() < 0.6, "after": rng.random() < 0.6}
     cli = rng.choice([None, None, 1, 2, 3])
     bld = rng.choice(["default", "default", "none", 1, 2, 3])
